@@ -342,6 +342,37 @@ def check_pair(spec_a, spec_b, what):
     return None
 
 
+@rechecked
+def check_free_references(kind):
+    """
+    Comparisons rooted at an OPERATION or a BLOCK whose ops refer to blocks / values defined OUTSIDE the compared IR (a branch to a sibling block, an
+    operand from an enclosing region): such references correspond to themselves, so the IR is equivalent to itself and to its clone, and differs
+    from a copy that refers to something else.
+    """
+    from xdsl.dialects import test
+    from xdsl.dialects.builtin import i32
+    from xdsl.ir import Block, Region
+
+    target, other = Block(), Block()
+    outside = test.TestOp.create(result_types=[i32])
+    br = test.TestTermOp.create(successors=[target], operands=[outside.results[0]])
+    body = Block([test.TestOp.create(operands=[outside.results[0]]), br])
+    holder = test.TestOp.create(regions=[Region([Block([outside]), body, target, other])])
+    root = br if kind == "op" else body
+    inputs = {}
+    if not root.is_structurally_equivalent(root):
+        return {"key": "C03/free-references", "what": f"a {kind} with a successor / operand defined outside the compared IR is not equivalent to itself", "inputs": inputs}
+    if kind == "op":
+        c = br.clone()
+        if not br.is_structurally_equivalent(c) or not c.is_structurally_equivalent(br):
+            return {"key": "C03/free-references", "what": "an op with an outside successor is not equivalent to its clone", "inputs": inputs}
+        d = test.TestTermOp.create(successors=[other], operands=[outside.results[0]])
+        if br.is_structurally_equivalent(d) or d.is_structurally_equivalent(br):
+            return {"key": "C03/free-references", "what": "ops branching to DIFFERENT outside blocks are reported equivalent", "inputs": inputs}
+    del holder
+    return None
+
+
 def explore(tier, seed):
     rnd = random.Random(seed)
     n = 400 if tier == "quick" else 4000
@@ -355,6 +386,9 @@ def explore(tier, seed):
             seen.add(f["key"])
             fails.append(f)
 
+    for kind in ("op", "block"):
+        cases += 1
+        rec(check_free_references(kind))
     for _ in range(n):
         spec = gen_spec(rnd)
         cases += 3
@@ -371,4 +405,4 @@ def explore(tier, seed):
     return {"cases": cases, "nontrivial": nontrivial, "failures": fails, "exhaustive": False,
             "bound": f"{n} seeded programs (<=2 blocks x <=3 ops, <=2 operands incl. forward/outer references, successors, one nested region level), "
                      f"each vs itself, vs its clone, vs an identical rebuild and vs {len(MUTATIONS)} single-point mutations; both directions; "
-                     "independent isomorphism oracle"}
+                     "independent isomorphism oracle; op- and block-rooted comparisons with successors / operands defined outside the compared IR"}
